@@ -44,38 +44,42 @@ Section Proofs.
   (* C15_atomic_pair *)
 
   Fixpoint ranges_contig (s : Z) (rs : list (Z * Z)) : Prop :=
-    match rs with [] => True | (a, b) :: rest => a = s /\ ranges_contig (b + 1) rest end.
+    match rs with [] => True | (a, b) :: rest => a = s /\ s <= b /\ ranges_contig (b + 1) rest end.
 
   Lemma ranges_cover_contig s e r rs : ranges_cover s e r rs -> ranges_contig s rs.
   Proof.
     revert s. induction rs as [|[a b] rest IH]; intros s; simpl; [trivial|].
-    intros (Ha & _ & _ & _ & _ & _ & Hrest). split; [exact Ha|].
+    intros (Ha & Hsb & _ & _ & _ & _ & Hrest). split; [exact Ha|]. split; [exact Hsb|].
     destruct rest as [|p rest']; [exact I|]. apply IH. exact Hrest.
   Qed.
 
   Lemma range_loop_justified fl (nd : node E) : forall rs s st rpc db,
     ranges_contig s rs -> (fl_swallow fl = false -> next_start fl st = s) ->
+    (fl_unclamped fl = false -> fl_first_start fl <= s) ->
     chain_justified fl nd st (snd (range_loop fl nd st rs rpc db)) /\
     fst (fst (range_loop fl nd st rs rpc db)) = last (snd (range_loop fl nd st rs rpc db)) st.
   Proof.
-    induction rs as [|[a b] rest IH]; intros s st rpc db Hc Hs; simpl; [split; [exact I|reflexivity]|].
-    destruct Hc as [-> Hc].
+    induction rs as [|[a b] rest IH]; intros s st rpc db Hc Hs Hfs; simpl; [split; [exact I|reflexivity]|].
+    destruct Hc as (-> & Hsb & Hc).
     destruct (pop rpc) as [fa rpc1]. destruct (is_fail fa); [simpl; split; [exact I|reflexivity]|].
     destruct (pop rpc1) as [fb rpc2]. destruct (is_fail fb); [simpl; split; [exact I|reflexivity]|].
     destruct (n_hash nd b) as [h|] eqn:Hh; [|simpl; split; [exact I|reflexivity]].
     destruct (pop db) as [fc db1].
     assert (Hj : justified fl nd st (commit_range nd st s b h)).
     { left. exists s, b, h. split; [exact Hh|]. split; [reflexivity|]. intros Hf. symmetry. apply Hs. exact Hf. }
-    assert (Hnext : fl_swallow fl = false -> next_start fl (commit_range nd st s b h) = b + 1) by (intros _; reflexivity).
+    assert (Hnext : fl_swallow fl = false -> next_start fl (commit_range nd st s b h) = b + 1).
+    { intros _. unfold next_start, start_after, Syncer.commit_range. cbn [st_status].
+      destruct (fl_unclamped fl) eqn:Hu; [reflexivity|]. specialize (Hfs eq_refl). lia. }
+    assert (Hfs' : fl_unclamped fl = false -> fl_first_start fl <= b + 1) by (intros Hu; specialize (Hfs Hu); lia).
     destruct fc.
-    - specialize (IH (b + 1) (commit_range nd st s b h) rpc2 db1 Hc Hnext).
+    - specialize (IH (b + 1) (commit_range nd st s b h) rpc2 db1 Hc Hnext Hfs').
       destruct (range_loop fl nd (commit_range nd st s b h) rest rpc2 db1) as [[st2 r] tr]. simpl in *.
       destruct IH as [IH1 IH2]. split; [split; assumption|].
       change (st2 = last (commit_range nd st s b h :: tr) st). rewrite last_cons. exact IH2.
     - destruct (fl_swallow fl) eqn:Hsw; [|simpl; split; [exact I|reflexivity]].
-      apply (IH (b + 1)); [exact Hc|intros; discriminate].
+      apply (IH (b + 1)); [exact Hc|intros; discriminate|exact Hfs'].
     - destruct (fl_swallow fl) eqn:Hsw.
-      + specialize (IH (b + 1) (commit_range nd st s b h) rpc2 db1 Hc ltac:(intros; discriminate)).
+      + specialize (IH (b + 1) (commit_range nd st s b h) rpc2 db1 Hc ltac:(intros; discriminate) Hfs').
         destruct (range_loop fl nd (commit_range nd st s b h) rest rpc2 db1) as [[st2 r] tr]. simpl in *.
         destruct IH as [IH1 IH2]. split; [split; assumption|].
         change (st2 = last (commit_range nd st s b h :: tr) st). rewrite last_cons. exact IH2.
@@ -154,13 +158,15 @@ Section Proofs.
     simpl in Hk1. destruct H1 as [Hc1 Hl1].
     destruct failed; [split; assumption|].
     destruct (pop db1) as [f db2]. destruct (is_fail f); [split; assumption|].
-    set (start := match st_status st1 with None => fl_first_start fl | Some (k, _) => k + 1 end).
+    set (start := start_after fl (st_status st1)).
     destruct (fl_multi fl && (start >? n_number nd)); [split; assumption|].
-    assert (Hstart : 0 <= start).
-    { unfold start. destruct (st_status st1) as [[k h]|] eqn:Hs1; [|exact Hfs]. specialize (Hk1 k h eq_refl). lia. }
+    assert (Hstart : 0 <= start /\ (fl_unclamped fl = false -> fl_first_start fl <= start)).
+    { unfold start, start_after. destruct (st_status st1) as [[k h]|] eqn:Hs1; [|split; [exact Hfs|intros; lia]].
+      specialize (Hk1 k h eq_refl). destruct (fl_unclamped fl); split; try lia; intros; try discriminate; lia. }
+    destruct Hstart as [Hstart Hfsstart].
     destruct (sync_ranges_cover start (n_number nd) (fl_range fl) Hstart HR Hb) as (rs & Hrs & Hcov).
     rewrite Hrs.
-    assert (H2 := range_loop_justified fl nd rs start st1 rpc db2 (ranges_cover_contig _ _ _ _ Hcov) ltac:(intros; reflexivity)).
+    assert (H2 := range_loop_justified fl nd rs start st1 rpc db2 (ranges_cover_contig _ _ _ _ Hcov) ltac:(intros; reflexivity) Hfsstart).
     destruct (range_loop fl nd st1 rs rpc db2) as [[st2 r] tr2]. simpl in H2. destruct H2 as [Hc2 Hl2].
     split.
     - apply chain_justified_app; [exact Hc1|]. rewrite <- Hl1. exact Hc2.
@@ -173,6 +179,7 @@ Section Proofs.
   Section Exact.
   Variable fl : flavour.
   Hypothesis Hns : fl_swallow fl = false.
+  Hypothesis Hcl : fl_unclamped fl = false.
   Hypothesis HR : 0 < fl_range fl.
   Hypothesis HD : 0 <= fl_depth fl.
   Hypothesis Hfs : 0 <= fl_first_start fl.
@@ -214,16 +221,16 @@ Section Proofs.
   Qed.
 
   (* one range loop over a cover of [s, head v] *)
-  Lemma range_loop_exact (v : view) : view_ok fl v -> quiet_before admissible v fs ->
+  Lemma range_loop_exact (v : view) : view_ok fl v ->
     forall rs s st rpc db,
-      ranges_cover s (head_number v) (fl_range fl) rs -> 0 <= s -> st_rows st = rows_of v fs (s - 1) ->
+      ranges_cover s (head_number v) (fl_range fl) rs -> 0 <= s -> fs <= s -> st_rows st = rows_of v fs (s - 1) ->
       let '(st2, _, tr) := range_loop fl (node_of_view v) st rs rpc db in
       (tr = [] /\ st2 = st) \/
       (tr <> [] /\ exists k h, s <= k <= head_number v /\ hash_at v k = Some h /\
                                st2 = mkstate (Some (k, h)) (rows_of v fs k)).
   Proof.
-    intros (Hne & Hhn & Hku & Hbound) Hq.
-    induction rs as [|[a b] rest IH]; intros s st rpc db Hcov Hs Hrows; simpl; [left; auto|].
+    intros (Hne & Hhn & Hku & Hbound).
+    induction rs as [|[a b] rest IH]; intros s st rpc db Hcov Hs Hfss Hrows; simpl; [left; auto|].
     simpl in Hcov. destruct Hcov as (-> & Hsb & Hbe & Hlen & Hlast & Hfull & Hrest).
     destruct (pop rpc) as [fa rpc1]. destruct (is_fail fa); [left; auto|].
     destruct (pop rpc1) as [fb rpc2]. destruct (is_fail fb); [left; auto|].
@@ -232,8 +239,10 @@ Section Proofs.
     { unfold Syncer.commit_range. f_equal. rewrite node_logs.
       change (filter (fun p : pev E => admissible (pe_ev p)) (logs_of v s b)) with (rows_of v s b).
       rewrite Hrows. rewrite (fold_upsert_fresh E K key key_eqb merge key_eqb_spec).
-      - apply rows_of_extend; [exact Hq|exact Hs|lia].
-      - rewrite rows_of_extend by (try exact Hq; lia).
+      - rewrite <- (rows_of_app E admissible v fs (s - 1) b) by lia. do 2 f_equal. lia.
+      - assert (Hx : rows_of v fs (s - 1) ++ rows_of v s b = rows_of v fs b).
+        { rewrite <- (rows_of_app E admissible v fs (s - 1) b) by lia. do 2 f_equal. lia. }
+        rewrite Hx.
         apply keys_unique_stretch; [exact Hku|exact Hfs|exact Hbe]. }
     rewrite Hcommit.
     assert (Hcov' : ranges_cover (b + 1) (head_number v) (fl_range fl) rest).
@@ -242,7 +251,7 @@ Section Proofs.
               mkstate (Some (b, hb)) (rows_of v fs b) = mkstate (Some (k, h)) (rows_of v fs k)).
     { exists b, hb. repeat split; auto; lia. }
     destruct (pop db) as [fc db1]. destruct fc.
-    - specialize (IH (b + 1) (mkstate (Some (b, hb)) (rows_of v fs b)) rpc2 db1 Hcov' ltac:(lia)).
+    - specialize (IH (b + 1) (mkstate (Some (b, hb)) (rows_of v fs b)) rpc2 db1 Hcov' ltac:(lia) ltac:(lia)).
       replace (b + 1 - 1) with b in IH by lia. specialize (IH eq_refl).
       destruct (range_loop fl (node_of_view v) (mkstate (Some (b, hb)) (rows_of v fs b)) rest rpc2 db1) as [[st2 r] tr].
       right. split; [discriminate|].
@@ -361,24 +370,25 @@ Section Proofs.
   Qed.
 
   Lemma sync_exact (v w : view) st rpc db :
-    view_ok fl v -> quiet_before admissible v fs -> inv st w ->
+    view_ok fl v -> inv st w ->
     (st_status st <> None -> hash_determines w v) -> head_ok fl (mkg st w) v ->
     let '(st', _, tr) := sync fl (node_of_view v) st rpc db in
     (tr = [] /\ st' = st) \/ (tr <> [] /\ inv st' v).
   Proof.
-    intros Hvo Hq Hinv Hdet Hok. unfold sync.
+    intros Hvo Hinv Hdet Hok. unfold sync.
     assert (H1 := reorg_phase_exact v w st db Hvo Hinv Hdet Hok).
     destruct (reorg_phase fl (node_of_view v) st db) as [[[st1 db1] failed] tr1].
     assert (Hstop : (tr1 = [] /\ st1 = st) \/ (tr1 <> [] /\ inv st1 v)).
     { destruct H1 as [(H & H' & _)|(H & H' & _)]; [left|right]; auto. }
     destruct failed; [exact Hstop|].
     destruct (pop db1) as [f db2]. destruct (is_fail f); [exact Hstop|].
-    set (start := match st_status st1 with None => fs | Some (k, _) => k + 1 end).
+    set (start := start_after fl (st_status st1)).
     destruct (fl_multi fl && (start >? n_number (node_of_view v))); [exact Hstop|].
     assert (Hready : ready st1 v).
     { destruct H1 as [(_ & -> & H)|(_ & _ & H)]; [apply H; reflexivity|exact H]. }
-    assert (Hstart : 0 <= start).
-    { unfold start. unfold ready in Hready. destruct (st_status st1) as [[k h]|]; [lia|exact Hfs]. }
+    assert (Hstart : 0 <= start /\ fs <= start).
+    { unfold start, start_after. rewrite Hcl. unfold ready in Hready. destruct (st_status st1) as [[k h]|]; lia. }
+    destruct Hstart as [Hstart Hfsstart].
     destruct Hvo as (Hne & Hhn & Hku & Hbound).
     rewrite node_number.
     destruct (sync_ranges_cover start (head_number v) (fl_range fl) Hstart HR) as (rs & Hrs & Hcov).
@@ -389,10 +399,13 @@ Section Proofs.
                  (tr <> [] /\ exists k h, start <= k <= head_number v /\ hash_at v k = Some h /\
                                           st2 = mkstate (Some (k, h)) (rows_of v fs k))).
     { destruct rs as [|[a b] rest]; [simpl; left; auto|].
-      apply range_loop_exact; [repeat split; assumption|exact Hq|exact Hcov|exact Hstart|].
+      apply range_loop_exact; [repeat split; assumption|exact Hcov|exact Hstart|exact Hfsstart|].
       simpl in Hcov. destruct Hcov as (_ & Hsb & Hbe & _).
-      unfold ready in Hready. unfold start in *. destruct (st_status st1) as [[k h]|].
-      - replace (k + 1 - 1) with k by lia. apply Hready. lia.
+      unfold ready in Hready. unfold start, start_after in *. rewrite Hcl in *. destruct (st_status st1) as [[k h]|].
+      - destruct Hready as [Hk0 Hready]. rewrite Hready by lia.
+        destruct (Z_le_gt_dec fs (k + 1)) as [Hle|Hgt].
+        + f_equal. lia.
+        + rewrite (rows_of_empty E admissible v fs k) by lia. symmetry. apply rows_of_empty. lia.
       - rewrite Hready. symmetry. apply rows_of_empty. lia. }
     destruct (range_loop fl (node_of_view v) st1 rs rpc db2) as [[st2 r] tr2].
     destruct H2 as [[-> ->]|(Htr2 & k & h & Hk & Hh & ->)].
@@ -405,12 +418,12 @@ Section Proofs.
     inv (g_st g) (g_view g) /\ (st_status (g_st g) <> None -> In (g_view g) U).
 
   Lemma gstep_inv (U : list view) g inp :
-    universe_ok fl U -> (forall u, In u U -> quiet_before admissible u fs) ->
+    universe_ok fl U ->
     In (fst inp) U -> ginv U g -> head_ok fl g (fst inp) -> ginv U (gstep fl g inp).
   Proof.
-    intros [Hvo Hdet] Hq Hin [Hinv Hghost] Hok. unfold Syncer.gstep.
+    intros [Hvo Hdet] Hin [Hinv Hghost] Hok. unfold Syncer.gstep.
     destruct g as [st w]. simpl in *.
-    assert (H := sync_exact (fst inp) w st (fst (snd inp)) (snd (snd inp)) (Hvo _ Hin) (Hq _ Hin) Hinv
+    assert (H := sync_exact (fst inp) w st (fst (snd inp)) (snd (snd inp)) (Hvo _ Hin) Hinv
                             (fun Hs => Hdet _ _ (Hghost Hs) Hin) Hok).
     destruct (sync fl (node_of_view (fst inp)) st (fst (snd inp)) (snd (snd inp))) as [[st' r] tr].
     destruct H as [[-> ->]|[Htr Hinv']].
@@ -419,11 +432,11 @@ Section Proofs.
   Qed.
 
   Lemma grun_inv (U : list view) :
-    universe_ok fl U -> (forall u, In u U -> quiet_before admissible u fs) ->
+    universe_ok fl U ->
     forall inputs g, (forall inp, In inp inputs -> In (fst inp) U) -> ginv U g -> heads_ok fl g inputs ->
                      ginv U (fold_left (gstep fl) inputs g).
   Proof.
-    intros HU Hq. induction inputs as [|inp rest IH]; intros g Hin Hg Hok; simpl; [exact Hg|].
+    intros HU. induction inputs as [|inp rest IH]; intros g Hin Hg Hok; simpl; [exact Hg|].
     simpl in Hok. destruct Hok as [Hok1 Hok2].
     apply IH; [intros i Hi; apply Hin; right; exact Hi| |exact Hok2].
     apply gstep_inv; auto. apply Hin. left. reflexivity.
@@ -432,13 +445,12 @@ Section Proofs.
   Theorem exact_when_canonical (inputs : list (sync_input E)) (v : view) (faults : list fault * list fault) :
     let history := inputs ++ [(v, faults)] in
     universe_ok fl (map fst history) ->
-    (forall u, In u (map fst history) -> quiet_before admissible u fs) ->
     heads_ok fl ginit history ->
     forall k h b,
       st_status (g_st (grun fl history)) = Some (k, h) -> block_at v k = Some b -> bk_hash b = h ->
       st_rows (g_st (grun fl history)) = rows_of v fs k.
   Proof.
-    intros history HU Hq Hok k h b Hst Hb Hh.
+    intros history HU Hok k h b Hst Hb Hh.
     assert (Hg : ginv (map fst history) (grun fl history)).
     { unfold Syncer.grun. apply grun_inv; auto.
       - intros inp Hin. apply in_map. exact Hin.
